@@ -24,7 +24,7 @@ package parse
 //@ pred DeclaresContext(lines []string, k string) bool = exists j int :: 0 <= j && j < len(lines) && IsContextLine(lines[j]) && ContextName(lines[j]) == k
 
 //@ func Enum(empty, remaining, values)
-//@   props C12 C13
+//@   props C12 C13 C04 C10 C11
 //@   ensures len(strings.Fields(remaining)) == 0 && empty ==> result == "" && err == nil
 //@   ensures (len(strings.Fields(remaining)) == 0 && !empty) || len(strings.Fields(remaining)) > 1 ==> err != nil
 //@   ensures len(strings.Fields(remaining)) == 1 ==> (err == nil) == (exists i int :: 0 <= i && i < len(values) && strings.Fields(remaining)[0] == string(values[i]))
@@ -33,7 +33,7 @@ package parse
 
 // a bare setting or `yes` enables, `no` disables, anything else is an error
 //@ func Bool(remaining)
-//@   props C12
+//@   props C12 C04 C10 C11
 //@   ensures (err == nil) == BoolOK(remaining)
 //@   ensures err == nil ==> result == BoolValue(remaining)
 
